@@ -128,7 +128,8 @@ CLAIMS = {
              'guarded fetch, tuple convention, push / render / pop), gen_in_step_keeps_start (the stored sequence-start is '
              'the computed one), gen_in_loop_is_model, gen_in_loop_from_start; the batched loop of renderwb likewise equal to inLoopB: '
              'gen_in_batch_pre_is_model (= batchStep), gen_in_batch_step_is_model, gen_in_batch_loop_is_model, '
-             'gen_in_batch_loop_from_start. Correspondence: unbatched loops over lists/tuples '
+             'gen_in_batch_loop_from_start; the whole of renderwob (prologue, loop, epilogue) = renderBlk on dtml-in with sort / reverse: '
+             'gen_in_tag_is_model, gen_in_tag_is_in, gen_in_else_iff_empty, gen_in_sort_then_reverse. Correspondence: unbatched loops over lists/tuples '
              'of objects, mappings, 2-tuples, strings, numbers printing every variable, and nested loops with different '
              'prefixes; oracle: documented values computed from element positions, also for iterators / generators / lazy '
              'sequences and sort / reverse / batch combinations',
